@@ -43,6 +43,9 @@ def log(*a):
 # scratch copy + injection
 # ----------------------------------------------------------------------------------------------
 
+EXTRACTION_LOG = []
+
+
 def prepare_scratch(repo, scratch):
     if os.path.exists(scratch):
         shutil.rmtree(scratch)
@@ -53,8 +56,11 @@ def prepare_scratch(repo, scratch):
     hdir = os.path.join(scratch, "harness")
     shutil.copytree(os.path.join(VERIF, "kani"), hdir)
     # mechanical extractions (closure bodies that cannot be called as functions), verbatim, from the ORIGINAL text
+    EXTRACTION_LOG.clear()
     for ex in props.EXTRACTS:
         if ex.get("kind") == "fns":
+            EXTRACTION_LOG.append({"out": ex["out"], "from": ex["file"], "what": "fn items %s of %s, verbatim" % (ex["fns"], ", ".join(ex["scopes"])),
+                                   "compiled_against": ex.get("substitute", "")})
             # whole fn items, verbatim, concatenated (compiled in the harness against a model of a dependency)
             with open(os.path.join(hdir, ex["out"]), "w") as f:
                 f.write("// fn items extracted mechanically and verbatim from %s (%s)\n" % (ex["file"], ", ".join(ex["scopes"])))
@@ -84,6 +90,8 @@ def prepare_scratch(repo, scratch):
             body, a, b = inject.extract_fn_tail(os.path.join(repo, ex["file"]), ex["scopes"], ex["fn"], ex["marker"])
         else:
             body, a, b = inject.extract_closure_body(os.path.join(repo, ex["file"]), ex["marker"])
+        EXTRACTION_LOG.append({"out": ex["out"], "from": ex["file"], "what": "lines %d-%d (starting at `%s`), verbatim" % (a, b, ex["marker"].strip()),
+                               "sha256": hashlib.sha256("\n".join(body).encode()).hexdigest(), "compiled_against": ex.get("substitute", "")})
         with open(os.path.join(hdir, ex["out"]), "w") as f:
             f.write("// extracted mechanically and verbatim from %s lines %d-%d (starting at `%s`)\n"
                     % (ex["file"], a, b, ex["marker"].strip()))
@@ -643,6 +651,9 @@ def write_evidence(pid, P, tier, seed, obs, results, violations, undecided, know
             "unsafe_occurrences_in_repo_crates": scan_unsafe(repo),
             "injected_lines_add_only": added,
             "sha256_of_annotated_sources": sha,
+            "verbatim_extractions": [e for e in EXTRACTION_LOG if any(e["out"] in open(os.path.join(VERIF, "kani", f)).read()
+                                                                     for f in {o.get("file") for o in obs if o.get("file")}
+                                                                     if os.path.exists(os.path.join(VERIF, "kani", f)))],
             "known_findings_hit": sorted(known_names),
             "undecided": [r["ob"]["name"] for r in undecided],
             "solver_time_total_s": round(sum((s.get("verifier_time_s") or 0) for s in samples), 1),
